@@ -19,7 +19,7 @@ import (
 // breaks the obligation that pins the expected lists (Props/C06, C08, C09).
 func doShape(repo, out string) {
 	pkgs := []string{".", "microqr", "rmqr", "internal/bitmap", "internal/bitstream", "internal/reedsolomon", "internal/reedsolomon/element", "internal/reedsolomon/poly"}
-	var panics, writes, imgUses []string
+	var panics, writes, imgUses, pvars []string
 	for _, p := range pkgs {
 		dir := filepath.Join(repo, p)
 		ents, err := os.ReadDir(dir)
@@ -51,6 +51,27 @@ func doShape(repo, out string) {
 						vs := s.(*ast.ValueSpec)
 						for _, n := range vs.Names {
 							globals[n.Name] = true
+							ty := ""
+							if vs.Type != nil {
+								ty = render(fset, vs.Type)
+							} else if len(vs.Values) > 0 {
+								switch v := vs.Values[0].(type) {
+								case *ast.CompositeLit:
+									if v.Type != nil {
+										ty = render(fset, v.Type)
+									}
+								case *ast.UnaryExpr:
+									if cl, ok := v.X.(*ast.CompositeLit); ok && cl.Type != nil {
+										ty = "&" + render(fset, cl.Type)
+									}
+								case *ast.CallExpr:
+									ty = "call " + render(fset, v.Fun)
+								default:
+									ty = "expr"
+								}
+							}
+							_ = ty
+							pvars = append(pvars, p+":"+n.Name)
 						}
 						// tables of *bitmap.Image (declared type or composite literal type mentions bitmap.Image)
 						txt := ""
@@ -227,6 +248,8 @@ func doShape(repo, out string) {
 	sb.WriteString("-- GENERATED by /verif/translator from /repo's Go source. DO NOT EDIT.\nnamespace QRV.Gen.Shape\n\n")
 	fmt.Fprintf(&sb, "/-- functions containing explicit `panic(` calls, with their count -/\ndef panicSites : List String := %s\n\n", q(panics))
 	fmt.Fprintf(&sb, "/-- functions assigning to package-level variables (function->variables) -/\ndef globalWrites : List String := %s\n\n", q(writes))
+	sort.Strings(pvars)
+	fmt.Fprintf(&sb, "/-- every package-level variable of the library (package:name): the only places where state could live between calls -/\ndef packageVars : List String := %s\n\n", q(pvars))
 	fmt.Fprintf(&sb, "/-- every statement of the library that mentions a package-level table of bitmap images (how the tables are read, cloned, passed on) -/\ndef imageTableUses : List String := %s\n\n", q(imgUses))
 	ms := make([]string, len(mismatches))
 	copy(ms, mismatches)
